@@ -244,4 +244,33 @@ def evaluate(c):
     s1, s2 = set(l for l in text1.split('\n') if l.strip()), set(l for l in text2.split('\n') if l.strip())
     if s1 != s2:
         viol.append(('REWRITE', '%s: write(read(write(m))) differs: only in first %s, only in second %s' % (label, sorted(s1 - s2)[:3], sorted(s2 - s1)[:3])))
+    if not c['devs']:
+        # the file main() writes for --output-cmdline is the same option list; the run options the writer can add
+        # (field requests, power levels, distance, report options) are accepted as written
+        import tempfile, os
+        fd, path = tempfile.mkstemp(suffix='.opts')
+        os.close(fd)
+        try:
+            kind, r, out, err = cli.run_main(argv + ['--output-cmdline=' + path, '--theta=0,30,4', '--phi=0,90,3'])
+            ftxt = open(path).read()
+        finally:
+            os.unlink(path)
+        if kind != 'ret' or r is not None:
+            viol.append(('OUTPUT-CMDLINE', '%s: main() with --output-cmdline ends with %s %s' % (label, kind, r)))
+        elif set(l for l in ftxt.split('\n') if l.strip()) != s1:
+            viol.append(('OUTPUT-CMDLINE', '%s: file written by main() differs from as_cmdline(): %s' % (label, sorted(set(ftxt.split('\n')) ^ s1)[:3])))
+        try:
+            text4 = m1.as_cmdline(azi=azi, zen=zen, near=[1., 2., 3., 0.5, 0.5, 0.5, 2, 1, 2], pwr_nf=10., pwr_ff=100., ff_dist=1000.,
+                                  opt=('far-field', 'far-field-absolute', 'near-field'))
+            kind, r, out, err = cli.run_main(shlex.split(text4))
+            if kind != 'ret' or r is not None:
+                viol.append(('RUN-OPTIONS', '%s: option list with run options is not accepted: %s %s %s' % (label, kind, r, err[-100:])))
+            else:
+                from mcx.ref import report
+                ne = len([b for b in report.parse_near(out) if b['kind'] == 'E'])
+                nf = len(report.parse_far_db(out))
+                if ne != 4 or nf != 12 or 'PATTERN DATA' not in out:
+                    viol.append(('RUN-OPTIONS', '%s: report from the written run options has %d near-field points and %d pattern rows (4 / 12 requested)' % (label, ne, nf)))
+        except Exception as e:
+            viol.append(('RUN-OPTIONS', '%s: %r' % (label, e)))
     return dict(viol=viol[:6], canon=label, nontriv=bool(c['devs']), trans=2, traces=1, evals=2, dev=0.0, outcome='roundtrip')
